@@ -26,6 +26,9 @@ def gen_scenario(R):
     close = R.random() < 0.3
     if close:
         lines.append("0|CLOSE%s\r\n" % R.choice(["", "|S|reason|S|shutdown"]))
+        if R.random() < 0.2:
+            # the Proxy Adapter closes at once: close packets are honoured before the init request too
+            lines, reqs, n = lines[-1:], [], 0
     mode = R.choice(["line", "all", "merge", "split", "split"])
     if mode == "line":
         chunks = lines
